@@ -37,7 +37,7 @@ ParameterRemapBasicStringPtrToString(CPPType *orig_type) :
  */
 void ParameterRemapBasicStringPtrToString::
 pass_parameter(std::ostream &out, const string &variable_name) {
-  out << "&std::string(" << variable_name << ")";
+  out << "&(const std::string &)std::string(" << variable_name << ")";
 }
 
 /**
@@ -70,7 +70,7 @@ ParameterRemapBasicWStringPtrToWString(CPPType *orig_type) :
  */
 void ParameterRemapBasicWStringPtrToWString::
 pass_parameter(std::ostream &out, const string &variable_name) {
-  out << "&std::wstring(" << variable_name << ")";
+  out << "&(const std::wstring &)std::wstring(" << variable_name << ")";
 }
 
 /**
